@@ -238,14 +238,9 @@ ares_status_t ares_conn_flush(ares_conn_t *conn)
   size_t               count;
   ares_conn_err_t      err;
   ares_status_t        status;
-  ares_bool_t          tfo = ARES_FALSE;
 
   if (conn == NULL) {
     return ARES_EFORMERR;
-  }
-
-  if (conn->flags & ARES_CONN_FLAG_TFO_INITIAL) {
-    tfo = ARES_TRUE;
   }
 
   do {
@@ -303,9 +298,11 @@ done:
   if (status == ARES_SUCCESS) {
     ares_conn_state_flags_t flags = ARES_CONN_STATE_READ;
 
-    /* When using TFO, the we need to enabling waiting on a write event to
-     * be notified of when a connection is actually established */
-    if (tfo) {
+    /* Until a TCP connection is known to be established (with or without TFO)
+     * we need to keep waiting on a write event to be notified of that, no
+     * matter how often we get here before it arrives */
+    if (conn->flags & ARES_CONN_FLAG_TCP &&
+        !(conn->state_flags & ARES_CONN_STATE_CONNECTED)) {
       flags |= ARES_CONN_STATE_WRITE;
     }
 
